@@ -12,9 +12,84 @@
    any goroutine may be scheduled between any two atomic actions.  The schema's validated
    declarations [h_schema] are part of the shared state as well. *)
 From Coq Require Import List NArith Bool.
+From Coq Require String. Import String.StringSyntax.
+Local Delimit Scope string_scope with string.
 From stdpp Require Import gmap.
-From OV Require Import Base.Bytes Base.Cases Model.Js.
+From OV Require Import Base.Bytes Base.Cases Model.Js Gen.PkgVars.
 Import ListNotations.
+
+(* ---- where the process-wide state lives --------------------------------------------------------- *)
+(* The shared state [hid] below has one component per package-level variable of the repository
+   that is mutable at run time.  Gen/PkgVars.v is re-extracted from the sources on every run (all
+   package-level `var`s of the library packages); [accounted] says what each one is.  A variable
+   that is not accounted for - a new package-level map, pool, cache, slice, counter - makes
+   process_state_accounted (Props/C14.v) stop checking. *)
+Inductive component :=
+| CCounter      (* idr.nodeID              <-> h_ctr   *)
+| CNodePool     (* idr.nodePool            <-> h_npool *)
+| CVmPool       (* customfuncs.jsRuntimePool <-> h_vms *)
+| CProgCache    (* customfuncs.JSProgramCache <-> h_prog *)
+| CNodeCache.   (* customfuncs.NodeToJSONCache <-> h_node *)
+(* h_xc (xpath expression cache) and the regexp cache live in go-corelib, outside the repository *)
+
+Inductive role :=
+| RShared (c : component)   (* a component of the shared state: accessed by the atomic actions *)
+| RSwitch                   (* test-only switch: written by no library function *)
+| RTable.                   (* initialised at package init, written by no library function *)
+
+Definition accounted : list (String.string * String.string * role) := [
+  ("idr", "nodeID", RShared CCounter);
+  ("idr", "nodePool", RShared CNodePool);
+  ("extensions/omniv21/customfuncs", "jsRuntimePool", RShared CVmPool);
+  ("extensions/omniv21/customfuncs", "JSProgramCache", RShared CProgCache);
+  ("extensions/omniv21/customfuncs", "NodeToJSONCache", RShared CNodeCache);
+  ("idr", "nodeCaching", RSwitch);
+  ("extensions/omniv21/customfuncs", "disableCaching", RSwitch);
+  (".", "defaultExt", RTable);
+  ("customfuncs", "CommonCustomFuncs", RTable);
+  ("extensions/omniv21/customfuncs", "OmniV21CustomFuncs", RTable);
+  ("header", "supportedEncodingMappings", RTable);
+  ("extensions/omniv21/fileformat/edi", "crBytes", RTable);
+  ("extensions/omniv21/fileformat/edi", "lfBytes", RTable);
+  ("extensions/omniv21/transform", "convFloatToInt", RTable);
+  ("extensions/omniv21/transform", "convIntToFloat", RTable);
+  ("extensions/omniv21/transform", "convStrToBool", RTable);
+  ("extensions/omniv21/transform", "convStrToFloat", RTable);
+  ("extensions/omniv21/transform", "convStrToInt", RTable);
+  ("extensions/omniv21/transform", "convToStr", RTable);
+  ("extensions/omniv21/transform", "convUintToFloat", RTable)
+]%string.
+
+Definition role_of (pkg name : String.string) : option role :=
+  match find (fun e => String.eqb (fst (fst e)) pkg && String.eqb (snd (fst e)) name) accounted with
+  | Some e => Some (snd e)
+  | None => None
+  end.
+
+(* error sentinels, scalars and function values that nothing writes need no entry; everything
+   else (maps, slices, pointers, sync/atomic values, results of calls, anything written) must be
+   accounted for by name, and switches / tables must really be written by no library function *)
+Definition var_ok (v : pkgvar) : bool :=
+  match role_of (pv_pkg v) (pv_name v) with
+  | Some (RShared _) => true
+  | Some RSwitch | Some RTable => negb (pv_written v)
+  | None => negb (pv_written v) &&
+            match pv_kind v with KErr | KScalar | KFunc => true | _ => false end
+  end.
+
+Definition all_components : list component := [CCounter; CNodePool; CVmPool; CProgCache; CNodeCache].
+Definition component_eqb (a b : component) : bool :=
+  match a, b with
+  | CCounter, CCounter | CNodePool, CNodePool | CVmPool, CVmPool
+  | CProgCache, CProgCache | CNodeCache, CNodeCache => true
+  | _, _ => false
+  end.
+(* every component of the model is a variable that exists in the sources *)
+Definition component_real (c : component) : bool :=
+  existsb (fun v => match role_of (pv_pkg v) (pv_name v) with
+                    | Some (RShared c') => component_eqb c c'
+                    | _ => false
+                    end) pkg_vars.
 
 Section Conc.
   Variable S : Type.                      (* validated schema data: declarations, format runtime *)
@@ -48,9 +123,10 @@ Section Conc.
   | GAlloc (c : bytes)             (* idr.CreateNode ... the reader builds a node *)
   | GRelease                       (* idr.RemoveAndReleaseTree of the newest node *)
   | GXPath (e : N) (k : nat)       (* idr.MatchAll / MatchSingle with a cacheable expression *)
+  | GCompile (e : N)               (* caches.GetXPathExpr / GetRegex while a schema is validated *)
   | GJs (j : jsop).                (* javascript / javascript_with_context *)
 
-  Inductive gout := OutX (v : N) | OutJs (o : outcome) | OutNoNode.
+  Inductive gout := OutX (v : N) | OutJs (o : outcome) | OutNoNode | OutC (x : N).
 
   (* where a goroutine stands inside an operation *)
   Inductive pend :=
@@ -58,6 +134,7 @@ Section Conc.
   | PAllocNew (c : bytes)                         (* pool was empty: New() -> allocNode -> fetch_add *)
   | PReleasePut (id : N)                          (* reset done (new ID): about to Put *)
   | PXAdd (e : N) (c : bytes)                     (* expression cache miss: compiled, about to Add *)
+  | PCAdd (e : N)                                 (* the same while validating a schema *)
   | PJsProgAdd (j : jsop) (p : script)            (* program cache miss: compiled, about to Add *)
   | PJsNode (j : jsop) (p : script)               (* have the program: node-JSON lookup next *)
   | PJsNodeAdd (j : jsop) (p : script) (id : N) (b : bytes)   (* node cache miss: about to Add *)
@@ -96,6 +173,9 @@ Section Conc.
     | PXAdd e c =>                                     (* cache.Add; then the query runs locally *)
         (set_xc h (lru_add (h_xc h) e (xcompile e)),
          mkG (g_todo g) (g_live g) PIdle (g_out g ++ [OutX (xeval (h_schema h) (xcompile e) c)]) (g_ids g))
+    | PCAdd e =>
+        (set_xc h (lru_add (h_xc h) e (xcompile e)),
+         mkG (g_todo g) (g_live g) PIdle (g_out g ++ [OutC (xcompile e)]) (g_ids g))
     | PJsProgAdd j p =>
         (set_prog h (lru_add (h_prog h) (j_js j) p), mkG (g_todo g) (g_live g) (PJsNode j p) (g_out g) (g_ids g))
     | PJsNode j p =>
@@ -153,6 +233,11 @@ Section Conc.
                 | (None, _) => (h, mkG rest (g_live g) (PXAdd e c) (g_out g) (g_ids g))
                 end
             end
+        | GCompile e :: rest =>
+            match lru_get (h_xc h) e with
+            | (Some x, cache') => (set_xc h cache', mkG rest (g_live g) PIdle (g_out g ++ [OutC x]) (g_ids g))
+            | (None, _) => (h, mkG rest (g_live g) (PCAdd e) (g_out g) (g_ids g))
+            end
         | GJs j :: rest =>
             match lru_get (h_prog h) (j_js j) with     (* JSProgramCache.Get *)
             | (Some p, cache') => (set_prog h cache', mkG rest (g_live g) (PJsNode j p) (g_out g) (g_ids g))
@@ -163,6 +248,37 @@ Section Conc.
                 end
             end
         end
+    end.
+
+  (* ---- the atomic actions --------------------------------------------------------------------------- *)
+  (* EXACTLY these accesses to the shared state are assumed to be atomic (sync.Pool Get/Put,
+     atomic.AddInt64, and Get / Add of the internally locked LRU caches); every step of every
+     goroutine performs at most one of them (Proofs: gstep_one_action). *)
+  Inductive action :=
+  | ANone
+  | AFetchAdd                         (* atomic.AddInt64(&nodeID, 1) *)
+  | ANodePoolTake (i : nat)           (* nodePool.Get returning a pooled node *)
+  | ANodePoolPut (id : N)             (* nodePool.Put *)
+  | AXGet (e : N) | AXAdd (e : N) (v : N)                 (* xpath expression cache *)
+  | APGet (js : N) | APAdd (js : N) (p : script)          (* JSProgramCache *)
+  | ANGet (id : N) | ANAdd (id : N) (b : bytes)           (* NodeToJSONCache *)
+  | AVmTake (ch : choice)             (* jsRuntimePool.Get *)
+  | AVmPut (m : vm).                  (* jsRuntimePool.Put *)
+
+  Definition act_apply (a : action) (h : hid) : hid :=
+    match a with
+    | ANone => h
+    | AFetchAdd => set_ctr h (N.succ (h_ctr h))
+    | ANodePoolTake i => set_npool h (remove_nth i (h_npool h))
+    | ANodePoolPut id => set_npool h (id :: h_npool h)
+    | AXGet e => set_xc h (snd (lru_get (h_xc h) e))
+    | AXAdd e v => set_xc h (lru_add (h_xc h) e v)
+    | APGet js => set_prog h (snd (lru_get (h_prog h) js))
+    | APAdd js p => set_prog h (lru_add (h_prog h) js p)
+    | ANGet id => set_node h (snd (lru_get (h_node h) id))
+    | ANAdd id b => set_node h (lru_add (h_node h) id b)
+    | AVmTake ch => set_vms h (snd (pool_get r ch (h_vms h)))
+    | AVmPut m => set_vms h (pool_put m (h_vms h))
     end.
 
   (* ---- interleavings ------------------------------------------------------------------------------ *)
@@ -220,8 +336,17 @@ Section Conc.
         | None => OutNoNode
         | Some c => OutX (xeval sch (xcompile e) c)
         end :: spec_outs sch lc rest
+    | GCompile e :: rest => OutC (xcompile e) :: spec_outs sch lc rest
     | GJs j :: rest => js_spec j lc :: spec_outs sch lc rest
     end.
+
+  (* omniparser.NewSchema as a goroutine: it reads its arguments and constants only - JSON-schema
+     validation and the declaration checks are a pure function [validate] of the schema text and
+     the extension list - and compiles the xpaths / regexps of the declarations through the
+     process-wide caches.  What it returns: *)
+  Definition new_schema_ops (es : list N) : list gop := map GCompile es.
+  Definition new_schema_result {A R} (validate : A -> list N -> R) (args : A) (outs : list gout) : R :=
+    validate args (omap (fun o => match o with OutC x => Some x | _ => None end) outs).
 End Conc.
 
 Arguments mkHid {S}. Arguments h_schema {S}. Arguments h_ctr {S}. Arguments h_npool {S}.
